@@ -34,7 +34,8 @@ HAND = [
     "'é€😀'", "{é: 1}" if False else "{'é': 1}", "# leading comment\n1", "1 # trailing", "/* block */ 1", "1 /* block */", "// only\n// comments\n1",
     "{\n  // comment in object\n  a: 1,  // trailing a\n  /* block b */\n  b: 2,\n  # hash c\n}", "[\n  // in array\n  1,  // after 1\n  2,\n]",
     "local a = 1;  // after local\n// before body\na", "f(\n  // in args\n  1,\n)", "function(\n  // in params\n  x,\n) x", "{\n  a: 1,\n\n  // after blank\n  b: 2,\n}",
-    "/*\n * gutter\n * comment\n */\n1", "/**\n * doc comment\n */\n{a: 1}", "1 + // mid-expression\n2", "[x // in comp\n for x in [1]]", "if true // after cond\n then 1 else 2",
+    "/*\n * gutter\n * comment\n */\n1", "/**\n * foo\n *\n * bar\n */\n1", "/*\n * a\n *\n * b\n */\n1", "{\n  /**\n   * foo\n   *\n   * bar\n   */\n  a: 1,\n}",
+    "/* a\n\n   b */ 1", "/*\n  a\n\n    b\n*/ 1", "/* one\n   two */ 1", "/*\n\ta\n\t\tb\n*/ 1", "|||\n  a\n\n\n|||", "|||\n  a\n\n|||", "{a: |||\n  x\n\n\n|||}", "/**\n * doc comment\n */\n{a: 1}", "1 + // mid-expression\n2", "[x // in comp\n for x in [1]]", "if true // after cond\n then 1 else 2",
 ]
 COMMENT_SEPS = [" /* c{n} */ ", " // c{n}\n", " # c{n}\n", "\n/* c{n}\n   more{n} */\n", " "]
 
